@@ -313,8 +313,10 @@ def sibling_faults(scn):
     return out
 
 
-# experiment switch (not used by the registered commands): judge every route by the strict reading
-STRICT_ALL = os.environ.get("C13_STRICT_ALL") == "1"
+# every route is judged by the strict reading of deletions (a deletion of a record the zone never held
+# and the stream never deleted makes the stream invalid); C13_STRICT_ALL=0 restores the older reading
+# ("either") on the one-RR-per-RRset routes for comparison
+STRICT_ALL = os.environ.get("C13_STRICT_ALL", "1") != "0"
 RCODES = [5, 2, 9]
 
 
@@ -996,10 +998,11 @@ def run(ctx):
                 "= distinct (pre-state, query, transport, message sequence); zone kinds replicate it.")
     ctx.assume("one zone origin (example.), class IN, no TSIG, no EDNS; record universe of 6 records + SOA")
     ctx.assume("single faults only; faulted streams longer than full_split_upto records use the reduced split set")
-    ctx.assume("out-of-zone records, deletes of absent / adds of present records, AXFR duplicates, SOA(T) SOA(T) "
-               "and serial differences of exactly 2^31 are judged 'either' (only: error => unchanged, "
-               "success => one of the acceptable zones); on the RRset-grouped route a deletion of a record the "
-               "zone never held and the stream never deleted is judged invalid (must fail, zone untouched)")
+    ctx.assume("out-of-zone records, repeated deletions of one record / adds of present records, AXFR duplicates, "
+               "SOA(T) SOA(T) and serial differences of exactly 2^31 are judged 'either' (only: error => unchanged, "
+               "success => one of the acceptable zones); a deletion of a record the zone never held and the stream "
+               "never deleted is judged invalid (the difference sequence is based on other content: must fail, "
+               "zone untouched)")
     ctx.extra["bounds"] = dict(cfg, per_task=per_task)
     ctx.extra["scenarios"] = {s["name"]: len(s["stream"]) for s in scns}
     ctx.extra["zone_kinds"] = ["%s/relativize=%s" % zk for zk in ZONE_KINDS]
